@@ -207,8 +207,8 @@ def make_harness(cycles, nwrites, nrecv, maxdelay):
 def shapes(tier):
     if tier == "quick":
         return [(6, 1, 1, 1), (7, 2, 0, 1), (7, 0, 2, 1)]
-    return [(8, 1, 1, 2), (9, 2, 1, 1), (9, 1, 2, 1), (10, 2, 2, 1),
-            (10, 3, 0, 1), (10, 0, 3, 2)]
+    return [(8, 1, 1, 2), (9, 2, 1, 1), (9, 1, 2, 1), (8, 2, 2, 1),
+            (8, 3, 0, 1), (10, 0, 3, 2)]
 
 
 def worker(args):
